@@ -647,7 +647,7 @@ pub async fn catch_up_sub(
         }
     };
 
-    forward_sub_to_sender(matcher, sub_rx, evt_tx, params.skip_rows).await
+    forward_sub_to_sender(matcher, sub_rx, evt_tx, params.skip_rows, last_change_id).await
 }
 
 pub async fn upsert_sub(
@@ -670,6 +670,7 @@ pub async fn upsert_sub(
             sub_rx,
             tx,
             params.skip_rows,
+            ChangeId(0),
         ));
 
         bcast_write.insert(handle.id(), sub_tx.clone());
@@ -820,6 +821,7 @@ async fn forward_sub_to_sender(
     mut sub_rx: broadcast::Receiver<(Bytes, QueryEventMeta)>,
     tx: mpsc::Sender<(Bytes, QueryEventMeta)>,
     skip_rows: bool,
+    mut last_change_id: ChangeId,
 ) {
     info!(sub_id = %handle.id(), "forwarding subscription events to a sender");
 
@@ -851,6 +853,13 @@ async fn forward_sub_to_sender(
             )
         {
             continue;
+        }
+        // the receiver can still hold changes the subscriber was already sent while catching up
+        if let QueryEventMeta::Change(change_id) = meta {
+            if change_id <= last_change_id {
+                continue;
+            }
+            last_change_id = change_id;
         }
         if let Err(e) = tx.send((event_buf, meta)).await {
             warn!(sub_id = %handle.id(), "could not send subscription event to channel: {e}");
